@@ -1,0 +1,6 @@
+//go:build !verif
+
+package table
+
+// verifTableKey is a verification hook; it is the identity unless built with the tag "verif".
+func verifTableKey(k addrPrefixKey) addrPrefixKey { return k }
